@@ -335,7 +335,7 @@ def main(tier, all_violations=False, t0=None):
     code = 0
     if viol:
         rec = {"property": ID, "site": "%s:%s:%s" % (viol.get("mode"), viol.get("harness"), viol.get("kind")), "detail": viol.get("detail", "")[:3000],
-               "case": {k: viol.get(k) for k in ("harness", "mode", "at", "poolsize", "granularity", "bound", "choices", "kind")}}
+               "case": {k: viol.get(k) for k in ("harness", "mode", "at", "poolsize", "granularity", "bound", "choices", "kind", "exc", "warm")}}
         path = core.write_replay(ID, rec)
         print("mode=%s harness=%s at=%s kind=%s exc=%s" % (viol.get("mode"), viol.get("harness"), viol.get("at"), viol.get("kind"), viol.get("exc")))
         print("detail=%s" % viol.get("detail", "")[:800])
